@@ -897,6 +897,7 @@ DLLIMPORT cfg_value_t *cfg_setopt(cfg_t *cfg, cfg_opt_t *opt, const char *value)
 	long int i;
 	void *p;
 	char *endptr;
+	int created = 0;
 
 	if (!cfg || !opt) {
 		errno = EINVAL;
@@ -1090,8 +1091,10 @@ DLLIMPORT cfg_value_t *cfg_setopt(cfg_t *cfg, cfg_opt_t *opt, const char *value)
 				cfg_free(val->section);
 			}
 			val->section = sec;
+			created = 1;
 		}
-		if (!is_set(CFGF_DEFINIT, opt->flags) && cfg_init_defaults(val->section) != CFG_SUCCESS)
+		/* a new instance always starts from the declared defaults */
+		if ((created || !is_set(CFGF_DEFINIT, opt->flags)) && cfg_init_defaults(val->section) != CFG_SUCCESS)
 			return NULL;
 		break;
 
